@@ -506,7 +506,7 @@ namespace GeographicLib {
       lam = lon * Math::degree(),
       tphi = sphi/cphi, txi = txif(tphi), sxi = txi/hyp(txi),
       dq = _qZ * Dsn(txi, _txi0, sxi, _sxi0) * (txi - _txi0),
-      drho = - _a * dq / (sqrt(_m02 - _n0 * dq) + _nrho0 / _a),
+      drho = - _a * dq / (sqrt(fmax(real(0), _m02 - _n0 * dq)) + _nrho0 / _a),
       theta = _k2 * _n0 * lam, stheta = sin(theta), ctheta = cos(theta),
       t = _nrho0 + _n0 * drho;
     x = t * (_n0 != 0 ? stheta / _n0 : _k2 * lam) / _k0;
